@@ -78,11 +78,10 @@ public:
     const uint64_t block = _delivered / R, off = _delivered % R;
     ++_delivered;
     const size_t idx = (size_t)(P * (block + 1) + off);
-    extend_to(idx + 1 + (R - 1 - off)); // complete the block
+    extend_to(idx + 1);
     return _x[idx];
   }
 
-  // borrow after the block that contains the last delivered value was produced
   uint64_t delivered() const { return _delivered; }
 };
 
